@@ -1,5 +1,6 @@
 CONSTANTS MaxChain = 3
   Slim = FALSE
+  Extras = TRUE
   Prefixes <- PrefixesDef
 INIT Init
 NEXT Next
